@@ -2,6 +2,7 @@ import MJ.Proofs.SliceFwd
 import MJ.Proofs.PySliceSpec
 import MJ.Proofs.SubGlue
 import MJ.Proofs.SubKinds
+import MJ.Model.SubObj
 /-!
 # C09 — subscripts and slices follow Python's rules for every bound and step
 
@@ -1236,4 +1237,429 @@ example : (∃ left, onceSliceEnum [0, 1, 2, 3, 4, 5] (some 1) (some 4) 2 = .ok 
   exact ⟨l, h, hs ⟨by decide, by decide⟩⟩
 
 end Round5
+/-! ## Objects by `Enumerator` variant (session 4)
+
+`MJ.Sub.Obj` (MJ/Model/SubObj.lean) is an object as `ops::slice` / `get_item_opt` see it:
+`repr()`, `enumerate()` (variant, what it yields, size hints), `get_value` by position.  The arms of
+`try_iter` / `query_len`, the length the `Seq` arm of `get_item_opt` offers to `index` and the data
+flow of the lazy object arm of `ops::slice` are regenerated tables (`C09_ENUMERATOR_ARMS`). -/
+section Objects
+open MJ.Sub
+set_option linter.unusedSimpArgs false
+variable {α : Type}
+
+/-- the object holds the items `xs`: what `enumerate()` returns (any variant but `NonEnumerable`)
+    yields them, a length it announces (exact size hints, `Seq(l)`) is their number, and
+    `get_value` answers by position (a `Seq` object must; an `Iterable` may) -/
+structure Holds (o : Obj α) (xs : List α) : Prop where
+  variant : o.variant ∈ MJ.Gen.c09EnumeratorVariants ∧ o.variant ≠ "NonEnumerable"
+  seq : o.variant = "Seq" → o.seqLen = xs.length ∧ o.gv = xs
+  empty : o.variant = "Empty" → xs = []
+  other : o.variant ≠ "Seq" → o.variant ≠ "Empty" → o.yields = xs
+  hint : ∀ a, o.hint = (a, some a) → a = xs.length
+  gvSeq : o.isSeq = true → o.gv = xs
+  gvIter : o.isSeq = false → o.gv = [] ∨ o.gv = xs
+
+theorem holds_tryIter (o : Obj α) (xs : List α) (h : Holds o xs) : o.tryIter = some xs := by
+  obtain ⟨hm, hne⟩ := h.variant
+  simp only [MJ.Gen.c09EnumeratorVariants, List.mem_cons, List.not_mem_nil, or_false] at hm
+  unfold Obj.tryIter
+  rcases hm with hv | hv | hv | hv | hv | hv | hv | hv | hv
+  · exact absurd hv hne
+  · have := h.empty hv; subst this; rw [hv]; rfl
+  · have := h.other (by rw [hv]; decide) (by rw [hv]; decide); rw [hv, this]; rfl
+  · have := h.other (by rw [hv]; decide) (by rw [hv]; decide); rw [hv, this]; rfl
+  · have := h.other (by rw [hv]; decide) (by rw [hv]; decide); rw [hv, this]; rfl
+  · have := h.other (by rw [hv]; decide) (by rw [hv]; decide); rw [hv, this]; rfl
+  · have := h.other (by rw [hv]; decide) (by rw [hv]; decide); rw [hv, this]; rfl
+  · obtain ⟨h1, h2⟩ := h.seq hv
+    rw [hv, h1, h2]
+    show some (xs.take xs.length) = some xs
+    rw [List.take_length]
+  · have := h.other (by rw [hv]; decide) (by rw [hv]; decide); rw [hv, this]; rfl
+
+theorem holds_queryLen (o : Obj α) (xs : List α) (h : Holds o xs) :
+    o.queryLen = Option.none ∨ o.queryLen = some xs.length := by
+  obtain ⟨hm, hne⟩ := h.variant
+  simp only [MJ.Gen.c09EnumeratorVariants, List.mem_cons, List.not_mem_nil, or_false] at hm
+  have hint : (match o.hint with
+      | (a, some b) => if a = b then some a else Option.none
+      | (_, Option.none) => Option.none) = Option.none ∨
+      (match o.hint with
+      | (a, some b) => if a = b then some a else Option.none
+      | (_, Option.none) => Option.none) = some xs.length := by
+    rcases hh : o.hint with ⟨a, b⟩
+    cases b with
+    | none => left; rfl
+    | some b =>
+      by_cases hab : a = b
+      · subst hab; right; simp only [if_true]; rw [h.hint a hh]
+      · left; simp only [hab, if_false]
+  unfold Obj.queryLen
+  rcases hm with hv | hv | hv | hv | hv | hv | hv | hv | hv
+  · exact absurd hv hne
+  · have := h.empty hv; subst this; rw [hv]; right; rfl
+  · have := h.other (by rw [hv]; decide) (by rw [hv]; decide); rw [hv, this]; right; rfl
+  · rw [hv]; exact hint
+  · rw [hv]; exact hint
+  · rw [hv]; exact hint
+  · rw [hv]; exact hint
+  · obtain ⟨h1, _⟩ := h.seq hv; rw [hv, h1]; right; rfl
+  · have := h.other (by rw [hv]; decide) (by rw [hv]; decide); rw [hv, this]; right; rfl
+
+/-- **every enumerator variant, both representations, honest or absent size hints**: one enumeration
+    of the lazy result of `ops::slice` on an object that holds `xs` yields Python's `xs[A:B:st]` -/
+theorem objSlice_eq_python (o : Obj α) (xs : List α) (h : Holds o xs) (A B : Option Int) (st : Int)
+    (hA : OptInI64 A) (hB : OptInI64 B) (hst : InI64 st) (h0 : st ≠ 0) (hl : xs.length < 9223372036854775808) :
+    objSliceItems o A B st = .ok (pick xs (PySlice.indices xs.length A B st)) := by
+  have hS := slice_list_ok xs A B st hA hB hst h0 hl
+  unfold objSliceItems
+  rw [holds_tryIter o xs h]
+  simp only []
+  by_cases hpos : st > 0
+  · rw [if_pos hpos]
+    rcases holds_queryLen o xs h with hq | hq
+    · rw [hq]; simp only []
+      by_cases hfe : (isNeg A || isNeg B) = true
+      · rw [if_pos hfe, hS]; rfl
+      · rw [if_neg hfe]
+        obtain ⟨sized, hU⟩ := sliceUnsizedG_eq xs A B st hA hB hst h0 hl
+        unfold sliceUnsizedG at hU
+        rw [if_pos ⟨hpos, by simpa using hfe⟩] at hU
+        cases ho : offsetLen A B MJ.Gen.c09UnsizedLen with
+        | panic => rw [ho] at hU; cases hU
+        | ok p =>
+          obtain ⟨off, n⟩ := p
+          rw [ho] at hU
+          simp only [] at hU ⊢
+          injection hU with hU
+          injection hU with hU
+          injection hU with _ hU
+          rw [hU]
+    · rw [hq]; simp only []
+      unfold slice at hS
+      simp only [Option.getD_some, h0, if_false, hpos, if_true] at hS
+      cases ho : offsetLen A B xs.length with
+      | panic => rw [ho] at hS; cases hS
+      | ok p =>
+        obtain ⟨off, n⟩ := p
+        rw [ho] at hS
+        simp only [] at hS ⊢
+        injection hS with hS
+        injection hS with hS
+        rw [hS]
+  · rw [if_neg hpos, hS]; rfl
+
+/-- `ops::slice` on such an object with the parts given as values: conversion errors in
+    start / stop / step order, the zero step error, else Python's selection; never a panic -/
+theorem objSliceV_of_bounds (o : Obj α) (xs : List α) (h : Holds o xs) (a b c : Val α) (A B C : Option Int)
+    (ha : optBound a = .ok A) (hb : optBound b = .ok B) (hc : optBound c = .ok C) (hl : xs.length < 9223372036854775808) :
+    objSliceV o a b c = if C.getD 1 = 0 then .ok (.error zeroStepErr)
+      else .ok (.ok (pick xs (PySlice.indices xs.length A B (C.getD 1)))) := by
+  have hA := optBound_range a A ha
+  have hB := optBound_range b B hb
+  have hst := getD_range C (optBound_range c C hc)
+  unfold objSliceV
+  simp only [ha, hb, hc]
+  by_cases h0 : C.getD 1 = 0
+  · simp only [h0, if_true]
+  · simp only [h0, if_false]
+    rw [objSlice_eq_python o xs h A B _ hA hB hst h0 hl]
+
+theorem valUsize_of_nonneg (key : Val α) (i : Int) (hk : valI64 key = some i) (hi : 0 ≤ i) :
+    valUsize key = some i.toNat := by
+  unfold valI64 tryInt at hk
+  unfold valUsize tryInt
+  split at hk
+  next harm =>
+    rw [if_pos harm]
+    cases hp : key.payload with
+    | none => rw [hp] at hk; cases hk
+    | some x =>
+      rw [hp] at hk; simp only [] at hk ⊢
+      split at hk
+      next hr =>
+        injection hk with hk; subst hk
+        rw [if_pos (by unfold i64Min i64Max usizeMax at *; omega)]
+        rfl
+      next => cases hk
+  next => cases hk
+
+theorem holds_lenOrCount (o : Obj α) (xs : List α) (h : Holds o xs) : o.lenOrCount = some xs.length := by
+  unfold Obj.lenOrCount
+  rcases holds_queryLen o xs h with hq | hq
+  · rw [hq, holds_tryIter o xs h]; rfl
+  · rw [hq]
+
+/-- subscripts of such an object: `o[key]` is Python's `xs[i]` for every key `as_i64` accepts — also
+    relative to the end when the object announces no length (its items are counted then) — and
+    undefined out of range -/
+theorem objGetItem_eq_python (o : Obj α) (xs : List α) (h : Holds o xs) (key : Val α) (i : Int)
+    (hk : valI64 key = some i) : objGetItem o key = index? xs i := by
+  unfold objGetItem
+  cases hs : o.isSeq with
+  | true =>
+    have hgv := h.gvSeq hs
+    have hlen : o.seqIndexLen = some xs.length := by
+      unfold Obj.seqIndexLen
+      rw [if_pos (by decide)]
+      exact holds_lenOrCount o xs h
+    simp only [if_true, obj_seq, hlen, hgv]
+    rw [← indexOf_bind key i xs hk]
+    cases hi : indexOf key (some xs.length) with
+    | none => simp only [Obj.getValue, indexOf_neg_of_none key i _ hk hi]
+    | some idx => rfl
+  | false =>
+    simp only [Bool.false_eq_true, if_false, obj_iter, if_true, holds_lenOrCount o xs h, holds_tryIter o xs h]
+    have hidx := indexOf_bind key i xs hk
+    rcases h.gvIter hs with hgv | hgv
+    · have : o.getValue key = Option.none := by
+        unfold Obj.getValue
+        cases valUsize key with
+        | none => rfl
+        | some n => rw [hgv]; first | done | rfl | simp
+      rw [this]; simp only []
+      rw [← hidx]
+      cases indexOf key (some xs.length) <;> rfl
+    · by_cases hi : 0 ≤ i
+      · have hu := valUsize_of_nonneg key i hk hi
+        have hix : index? xs i = xs[i.toNat]? := by
+          unfold index?; rw [if_neg (by omega)]
+        unfold Obj.getValue
+        rw [hu, hgv]; simp only []
+        cases hx : xs[i.toNat]? with
+        | some x => simp only [hix, hx]
+        | none =>
+          simp only []
+          rw [← hidx]
+          cases indexOf key (some xs.length) <;> rfl
+      · have hn : indexOf key (some 0) = Option.none := by
+          unfold indexOf; rw [hk]
+          simp only [show i < 0 by omega, if_true]
+          rw [if_neg (by omega)]
+        have hu := indexOf_neg_of_none key i 0 hk hn
+        unfold Obj.getValue
+        rw [hu]; simp only []
+        rw [← hidx]
+        cases indexOf key (some xs.length) <;> rfl
+
+/-- a key `as_i64` rejects selects nothing by position: `get_value(key)` decides (positions beyond
+    `i64` are beyond every sequence) -/
+theorem objGetItem_not_i64 (o : Obj α) (xs : List α) (h : Holds o xs) (key : Val α)
+    (hk : valI64 key = Option.none) (hl : xs.length < 9223372036854775808) : objGetItem o key = Option.none := by
+  have hgv : o.getValue key = Option.none := by
+    unfold Obj.getValue
+    cases hu : valUsize key with
+    | none => rfl
+    | some n =>
+      have hn := tryInt_usize_none_of_i64 key n hk hu
+      simp only []
+      apply List.getElem?_eq_none
+      cases hs : o.isSeq with
+      | true => rw [h.gvSeq hs]; omega
+      | false =>
+        rcases h.gvIter hs with hg | hg
+        · rw [hg]; exact Nat.zero_le _
+        · rw [hg]; omega
+  unfold objGetItem
+  cases hs : o.isSeq with
+  | true => simp only [if_true, obj_seq, indexOf_none key _ hk, hgv]
+  | false => simp only [Bool.false_eq_true, if_false, obj_iter, if_true, hgv, indexOf_none key _ hk]
+
+theorem lookup_mem {β γ : Type} [BEq β] [LawfulBEq β] (l : List (β × γ)) (k : β) (v : γ) (h : l.lookup k = some v) : (k, v) ∈ l := by
+  induction l with
+  | nil => cases h
+  | cons p l ih =>
+    obtain ⟨k', v'⟩ := p
+    simp only [List.lookup] at h
+    split at h
+    next heq =>
+      have : k = k' := by simpa using heq
+      subst this; injection h with h; subst h; exact List.mem_cons_self
+    next => exact List.mem_cons_of_mem _ (ih h)
+
+theorem hintOf_exact (kind : String) (n a : Nat) (h : hintOf kind n = (a, some a)) : a = n := by
+  unfold hintOf at h
+  split at h
+  · simp only [Prod.mk.injEq, Option.some.injEq] at h; omega
+  · split at h
+    · simp only [Prod.mk.injEq, Option.some.injEq] at h; omega
+    · split at h
+      · simp only [Prod.mk.injEq, reduceCtorEq, and_false] at h
+      · simp only [Prod.mk.injEq, reduceCtorEq, and_false] at h
+
+/-- every way the harness builds an enumerable object names an `Enumerator` variant of the regenerated
+    list; `Empty` and `Seq` are built by `empty` and `seq` only -/
+theorem harnessHows_ok : harnessHows.all (fun p => p.1 == "none" ||
+    (MJ.Gen.c09EnumeratorVariants.contains p.2.1 && p.2.1 != "NonEnumerable" &&
+     ((p.2.1 == "Empty") == (p.1 == "empty")) && ((p.2.1 == "Seq") == (p.1 == "seq")))) = true := by decide
+
+/-- the objects of the correspondence stream `eo` hold their items: all fifteen enumerable flavours
+    (every `Enumerator` variant, exact / loose / absent size hints) under both representations -/
+theorem harnessObj_holds (isSeq : Bool) (how : String) (xs : List α) (o : Obj α)
+    (ho : harnessObj isSeq how xs = some o) (hne : how ≠ "none") (hemp : how = "empty" → xs = []) : Holds o xs := by
+  unfold harnessObj at ho
+  cases hlk : harnessHows.lookup how with
+  | none => rw [hlk] at ho; cases ho
+  | some p =>
+    obtain ⟨variant, hk⟩ := p
+    rw [hlk] at ho
+    simp only [Option.some.injEq] at ho
+    subst ho
+    have hm := lookup_mem _ _ _ hlk
+    have hall := List.all_eq_true.mp harnessHows_ok _ hm
+    simp only [Bool.or_eq_true, Bool.and_eq_true, beq_iff_eq, bne_iff_ne, ne_eq, List.contains_iff_mem] at hall
+    rcases hall with hall | ⟨⟨⟨hmem, hnn⟩, hE⟩, hS⟩
+    · exact absurd hall hne
+    · have hE' : variant = "Empty" → how = "empty" := by
+        intro hv; subst hv; simpa using hE
+      have hS' : variant = "Seq" → how = "seq" := by
+        intro hv; subst hv; simpa using hS
+      refine ⟨⟨hmem, hnn⟩, ?_, ?_, ?_, ?_, ?_, ?_⟩
+      · intro hv; refine ⟨rfl, ?_⟩
+        simp only [hS' hv, decide_true, Bool.or_true, if_true]
+      · intro hv; exact hemp (hE' hv)
+      · intro _ _; rfl
+      · intro a ha; exact hintOf_exact hk xs.length a ha
+      · intro h; simp only at h; simp only [h, Bool.true_or, if_true]
+      · intro _
+        by_cases h : (isSeq || decide (how = "seq")) = true
+        · right; simp only [h, if_true]
+        · left; simp only [h]; rfl
+
+/-- the regenerated enumerator tables are the ones the object model interprets: every `Enumerator`
+    variant has its `try_iter` and `query_len` arm, an `ObjectRepr::Seq` object that announces no
+    length is counted on demand by `get_item_opt` (fix dad5284), and the lazy object arm of
+    `ops::slice` has the data flow `objSliceItems` transcribes -/
+theorem enumerator_arms_known :
+    MJ.Gen.c09EnumeratorVariants.all (fun v =>
+      (MJ.Gen.c09TryIterArms.lookup v).isSome && (MJ.Gen.c09QueryLenArms.lookup v).isSome) = true ∧
+    MJ.Gen.c09TryIterArms.length = MJ.Gen.c09EnumeratorVariants.length ∧
+    MJ.Gen.c09QueryLenArms.length = MJ.Gen.c09EnumeratorVariants.length ∧
+    MJ.Gen.c09GetItemSeqLen = "len-or-count-on-demand" ∧
+    MJ.Gen.c09SliceObjectFlow = ["tuple:items", "tuple:forward-len", "tuple:backward-len", "forward:known-len", "forward:from-end",
+      "forward:collect-if", "forward:lazy", "backward:collect", "not-iterable:empty"] := by decide
+
+/-- Full-strength statement for objects: every object of representation `Seq` or `Iterable` that
+    holds the items `xs` — whatever `Enumerator` variant it enumerates through, whether or not it
+    announces its length — sliced with parts that are omitted or Python integers of any
+    representation and size: a zero step is the error, everything else is Python's `xs[A:B:C]`;
+    no panic. -/
+def C09_objects_full : Prop :=
+  ∀ (α : Type) (o : Obj α) (xs : List α) (a b c : Val α) (A B C : Option Int),
+    Holds o xs → pyBound a = some A → pyBound b = some B → pyBound c = some C →
+    a.WF → b.WF → c.WF → xs.length < 9223372036854775808 →
+    objSliceV o a b c = if C = some 0 then .ok (.error zeroStepErr)
+      else .ok (.ok (pick xs (PySlice.indices xs.length A B (C.getD 1))))
+
+theorem objSliceV_eq_python : C09_objects_full := by
+  intro α o xs a b c A B C h ha hb hc wa wb wc hl
+  have h1 := objSliceV_of_bounds o xs h a b c _ _ _ (optBound_pyBound a A ha wa) (optBound_pyBound b B hb wb)
+    (optBound_pyBound c C hc wc) hl
+  have hstep : (C.map clampI64).getD 1 = clampI64 (C.getD 1) := by
+    cases C with
+    | none => simp [clampI64, i64Min, i64Max]
+    | some x => rfl
+  rw [hstep] at h1
+  by_cases h0 : C = some 0
+  · subst h0
+    simpa [clampI64, i64Min, i64Max] using h1
+  · have hne : C.getD 1 ≠ 0 := by
+      cases C with
+      | none => simp
+      | some x => simpa using h0
+    rw [if_neg h0]
+    rw [if_neg (by rw [clampI64_zero_iff]; exact hne)] at h1
+    rw [h1, indices_clamp xs.length A B (C.getD 1) hl hne]
+
+/-- subscripts of such an object with Python integers of every representation and size:
+    Python's `xs[i]`, IndexError = undefined -/
+theorem objGetItem_pyInt (o : Obj α) (xs : List α) (h : Holds o xs) (key : Val α) (i : Int)
+    (hk : pyInt key = some i) (hl : xs.length < 9223372036854775808) :
+    objGetItem o key = (PySlice.index xs.length i).bind (xs[·]?) := by
+  have hv64 : valI64 key = if i64Min ≤ i ∧ i ≤ i64Max then some i else Option.none := tryInt_of_pyInt _ _ key i hk
+  by_cases hr : i64Min ≤ i ∧ i ≤ i64Max
+  · rw [if_pos hr] at hv64
+    rw [objGetItem_eq_python o xs h key i hv64, index_eq_python]
+  · rw [if_neg hr] at hv64
+    rw [objGetItem_not_i64 o xs h key hv64 hl]
+    simp only [PySlice.index]
+    rw [if_neg (by unfold i64Min i64Max at hr; split <;> omega)]
+    rfl
+
+/-! ## The main theorem: what is proved, and what it rests on -/
+
+/-- the engine as the property observes it, on the model's value types: `ops::slice` and
+    `Value::get_item_opt` on values and on objects -/
+structure Engine (α : Type) where
+  sliceOp : Val α → Val α → Val α → Val α → Chk (Except Err (Val α))
+  getItemOp : Val α → Val α → Option (Item α)
+  objSliceOp : Obj α → Val α → Val α → Val α → Chk (Except Err (List α))
+  objGetItemOp : Obj α → Val α → Option α
+
+/-- the gap between the proofs and the code, as named hypotheses: the model functions ARE the
+    engine's.  Each is validated by correspondence streams of `./check C09` (engine and compiled
+    model on the same cases) and tied by regenerated tables; none is proved in Lean. -/
+structure Engine.Corresponds (e : Engine α) : Prop where
+  /-- streams slice (the quantifier's box, exhaustive) / chain / gs / long / huge / pb / meta -/
+  corr_slice : ∀ v a b c, e.sliceOp v a b c = sliceV v a b c
+  /-- streams index (box, exhaustive) / chain / gi / long / mr -/
+  corr_getItem : ∀ v k, e.getItemOp v k = getItemOpt v k
+  /-- stream eo (16 object flavours x 2 representations x a complete small box) -/
+  corr_objSlice : ∀ o a b c, e.objSliceOp o a b c = objSliceV o a b c
+  /-- stream eo -/
+  corr_objGetItem : ∀ o k, e.objGetItemOp o k = objGetItem o k
+
+/-- the property as stated, for an engine: slices and subscripts of strings, bytes, tuples,
+    sequences, lazy iterables and objects select what Python selects, of Python's type, for every
+    length below 2^63 and all parts that are omitted or integers; a zero step is the only error -/
+def C09_statement (e : Engine α) : Prop :=
+  (∀ (v a b c : Val α) (s : PySeq α) (A B C : Option Int),
+    pyView v = some s → pyBound a = some A → pyBound b = some B → pyBound c = some C →
+    a.WF → b.WF → c.WF → s.len < 9223372036854775808 →
+    if C = some 0 then e.sliceOp v a b c = .ok (.error zeroStepErr)
+    else ∃ r, e.sliceOp v a b c = .ok (.ok r) ∧ pyView r = some (s.slice A B (C.getD 1))) ∧
+  (∀ (v key : Val α) (s : PySeq α) (i : Int), pyView v = some s → pyInt key = some i → s.len < 9223372036854775808 →
+    (isOnce v = true → 0 ≤ i) → e.getItemOp v key = s.index i) ∧
+  (∀ (o : Obj α) (xs : List α) (a b c : Val α) (A B C : Option Int),
+    Holds o xs → pyBound a = some A → pyBound b = some B → pyBound c = some C →
+    a.WF → b.WF → c.WF → xs.length < 9223372036854775808 →
+    e.objSliceOp o a b c = if C = some 0 then .ok (.error zeroStepErr)
+      else .ok (.ok (pick xs (PySlice.indices xs.length A B (C.getD 1))))) ∧
+  (∀ (o : Obj α) (xs : List α) (key : Val α) (i : Int), Holds o xs → pyInt key = some i → xs.length < 9223372036854775808 →
+    e.objGetItemOp o key = (PySlice.index xs.length i).bind (xs[·]?))
+
+/-- **C09**: an engine that corresponds to the model satisfies the property -/
+theorem C09_main (e : Engine α) (h : e.Corresponds) : C09_statement e := by
+  refine ⟨?_, ?_, ?_, ?_⟩
+  · intro v a b c s A B C hv ha hb hc wa wb wc hl
+    rw [h.corr_slice]
+    exact sliceV_eq_python α v a b c s A B C hv ha hb hc wa wb wc hl
+  · intro v key s i hv hk hl ho
+    rw [h.corr_getItem]
+    exact getItemOpt_eq_python v key s i hv hk hl ho
+  · intro o xs a b c A B C ho ha hb hc wa wb wc hl
+    rw [h.corr_objSlice]
+    exact objSliceV_eq_python α o xs a b c A B C ho ha hb hc wa wb wc hl
+  · intro o xs key i ho hk hl
+    rw [h.corr_objGetItem]
+    exact objGetItem_pyInt o xs ho key i hk hl
+
+/-- the hypotheses of `C09_main` are satisfiable: the model itself is such an engine -/
+example : (⟨sliceV, getItemOpt, objSliceV, objGetItem⟩ : Engine Nat).Corresponds :=
+  ⟨fun _ _ _ _ => rfl, fun _ _ => rfl, fun _ _ _ _ => rfl, fun _ _ => rfl⟩
+
+/-- non-vacuity: a `Seq` object that enumerates through an iterator without size hints, holding
+    `[10, 11, 12, 13]`: `o[-1]`, `o[1:-1]`, `o[::-2]` -/
+example : ∃ o, harnessObj true "iternone" [10, 11, 12, 13] = some o ∧ Holds o [10, 11, 12, 13] ∧ o.queryLen = Option.none ∧
+    objGetItem o (Val.num (.i64 (-1)) : Val Nat) = some 13 ∧
+    objSliceItems o (some 1) (some (-1)) 1 = .ok [11, 12] ∧
+    objSliceItems o Option.none Option.none (-2) = .ok [13, 11] := by
+  have hh := harnessObj_holds true "iternone" [10, 11, 12, 13] _ rfl (by decide) (by decide)
+  refine ⟨_, rfl, hh, by decide, by decide, ?_, ?_⟩
+  · rw [objSlice_eq_python _ _ hh _ _ _ (by simp [OptInI64, InI64]) (by simp [OptInI64, InI64]) (by simp [InI64]) (by decide) (by decide)]; decide
+  · rw [objSlice_eq_python _ _ hh _ _ _ (by simp [OptInI64, InI64]) (by simp [OptInI64, InI64]) (by simp [InI64]) (by decide) (by decide)]; decide
+
+end Objects
+
 end MJ.C09
